@@ -403,8 +403,12 @@ impl IncrementalEngine {
     /// Insert tuples into a base relation at the given logical time.
     pub fn insert(&self, relation: &str, tuples: Vec<Tuple>, time: u64) -> Result<(), String> {
         self.ensure_relation(relation)?;
+        #[cfg(feature = "verif-hooks")]
+        crate::verif_hooks::point("incr.insert.publish_time");
         self.max_write_time.fetch_max(time, Ordering::SeqCst);
         let updates: Vec<(Tuple, u64, isize)> = tuples.into_iter().map(|t| (t, time, 1)).collect();
+        #[cfg(feature = "verif-hooks")]
+        crate::verif_hooks::point("incr.insert.send");
         self.command_tx
             .send(EngineCommand::InsertDelta {
                 relation: relation.to_string(),
@@ -418,6 +422,8 @@ impl IncrementalEngine {
         self.ensure_relation(relation)?;
         self.max_write_time.fetch_max(time, Ordering::SeqCst);
         let updates: Vec<(Tuple, u64, isize)> = tuples.into_iter().map(|t| (t, time, -1)).collect();
+        #[cfg(feature = "verif-hooks")]
+        crate::verif_hooks::point("incr.delete.send");
         self.command_tx
             .send(EngineCommand::InsertDelta {
                 relation: relation.to_string(),
@@ -459,10 +465,18 @@ impl IncrementalEngine {
 
     /// Read with consistency: advance time past all writes, wait, then read.
     pub fn read_relation_consistent(&self, relation: &str) -> Result<Vec<Tuple>, String> {
+        #[cfg(feature = "verif-hooks")]
+        crate::verif_hooks::point("incr.read_consistent.load_max");
         let max_time = self.max_write_time.load(Ordering::SeqCst);
         let target = max_time + 1;
+        #[cfg(feature = "verif-hooks")]
+        crate::verif_hooks::point("incr.read_consistent.advance");
         self.advance_time(target)?;
+        #[cfg(feature = "verif-hooks")]
+        crate::verif_hooks::point("incr.read_consistent.wait");
         self.wait_until_caught_up(target)?;
+        #[cfg(feature = "verif-hooks")]
+        crate::verif_hooks::point("incr.read_consistent.read");
         self.read_relation(relation)
     }
 
